@@ -433,11 +433,19 @@ func (b *Bounds) zoneBefore(blk *ssa.BasicBlock, before ssa.Instruction) *Zone {
 					}
 				}
 			}
-			// []byte(string) / string([]byte): same length
+			// []byte(string) / string([]byte): same length. []rune(string) has at most as many
+			// elements as the string has bytes (every rune takes at least one byte) - not the same
+			// number (seeded change C08-M sliced []rune(s) by a bound tested on len(s)); string([]rune)
+			// gives no upper bound here.
 			if lt, off, ok := lenTerm(t); ok && lt != zero {
 				if lx, offx, ok := lenTerm(t.X); ok {
 					_ = off
-					z.addEq(lt, lx, offx)
+					switch {
+					case ByteLike(t.Type()) && ByteLike(t.X.Type()):
+						z.addEq(lt, lx, offx)
+					case isRuneSlice(t.Type()) && ByteLike(t.X.Type()):
+						z.addLE(lt, lx, offx)
+					}
 				}
 			}
 		case *ssa.ChangeType:
@@ -1492,4 +1500,13 @@ func (b *Bounds) Debug(blk *ssa.BasicBlock) {
 			}
 		}
 	}
+}
+
+func isRuneSlice(t types.Type) bool {
+	sl, ok := t.Underlying().(*types.Slice)
+	if !ok {
+		return false
+	}
+	b, ok := sl.Elem().Underlying().(*types.Basic)
+	return ok && (b.Kind() == types.Int32 || b.Kind() == types.Rune)
 }
